@@ -5,7 +5,8 @@ from .props import HDR, standard
 
 KS = "services/keepstore"
 FILES_H = ["ks/zz_verif_ks_common_test.go", "C04/zz_verif_c04h_test.go"]
-HDR_H = HDR.format(imports="model.C04_model model.C04_run") + "Local Open Scope Z_scope.\n"
+HDR_H = (HDR.format(imports="model.C04_model model.C04_run model.C04_conf model.C04_conf_run") + "Local Open Scope Z_scope.\n"
+         "Notation case := hcase.\nDefinition failing := hfailing.\n")
 
 
 from .ks_instr import instrument as _instrument, instrumented_overlay, replace_env as _replace  # noqa: E402
@@ -200,8 +201,10 @@ def run(ctx):
         stage_h(ctx, n * mult, suffix, off)
         stage_i(ctx, 0 if (ctx.tier == "thorough" and not suffix) else 15 * mult, suffix, off)
         stage_d(ctx, nd * mult, suffix, off)
-    return standard(ctx, "C04", ["model/C04_run.vo", "model/C04_race_run.vo", "model/C04_delay_run.vo"], stages,
-                    rule="random histories (8-40 requests) of PUT/TOUCH/GET/trash-list/DELETE/untrash/empty-trash on 1-2 Directory volumes, "
+    explain = {"c04h": (HDR_H, "hexplain c")}
+    return standard(ctx, "C04", ["model/C04_run.vo", "model/C04_conf_run.vo", "model/C04_race_run.vo", "model/C04_delay_run.vo"], stages,
+                    explain=explain,
+                    rule="random histories (8-40 requests) of PUT/TOUCH/GET/trash-list/DELETE/untrash/empty-trash on 1-2 Directory volumes (volume-level ReadOnly and per-server AccessViaHosts flags, optionally a third volume of another server only; planted old/fresh blocks and trashed copies), "
                          "time advanced by shifting file times; sampled interleavings of PUT/TOUCH with DELETE; single PUT/TOUCH requests with clock jumps at their yield points followed by a DELETE; "
                          "distinct by hash of the case term; non-trivial = a block was trashed or an untrash was issued (histories), a prior copy exists (interleavings), an acknowledged request with at least one clock jump (delayed writes)",
                     assumptions=["virtual clock: time passes by shifting every mtime and trash deadline backwards by whole seconds; TTL 2 h, every age/deadline comparison kept >= 5 s from its boundary",
@@ -209,11 +212,12 @@ def run(ctx):
                                  "TrashItem and EmptyTrash are called directly, as the trash worker and the emptyTrash ticker do",
                                  "interleaving level: one writable volume, Serialize off; flock(2) per inode, utimes/stat/rename/unlink by path; mtimes abstracted to {older than TTL, fresh}",
                                  "a thread expected to be blocked in flock(2) is confirmed by a 15 ms grace period (only a missed detection, never a false alarm, can result from timing)",
+                                 "history level: the case carries Volumes.<uuid>.ReadOnly and AccessViaHosts (this server's URL, another server's URL) as configured; which volumes are writable is derived from that in Coq, never read from the server; block files and trashed copies of several ages are planted in every configured volume's directory (also of volumes of the other server only) before the history; mount order = order of GET /mounts",
                                  "delayed-write level: unix_volume.go reads its clock through verifNow() (real clock + harness offset, rewritten by tools/instrument); one request runs alone and the offset jumps 10 min - 3 h inside the hook of chosen yield points (incl. the v.lock points, Serialize on and off); every clock read of the request is bracketed by two stamps taken on its own goroutine; stored mtimes compared with 1 s slack; the commit phase (timestamp -> acknowledgement) is excluded from the demanded protection, as in the code"])
 
 
 def dev(ctx, n, extra):
-    core.coq_make(["model/C04_run.vo", "model/C04_race_run.vo", "model/C04_delay_run.vo"])
+    core.coq_make(["model/C04_run.vo", "model/C04_conf_run.vo", "model/C04_race_run.vo", "model/C04_delay_run.vo"])
     if extra.get("ONLY") in (None, "H"):
         stage_h(ctx, n, extra_env=extra)
     if extra.get("ONLY") in (None, "I"):
